@@ -143,3 +143,49 @@ def base_name(n):
 
 def text(n):
     return " ".join(unparse(n).split())
+
+
+_PROTECT = {"True", "False", "None", "self", "cls", "np", "numpy", "math", "torch", "config", "S"}
+_TOKEN = None
+
+
+def _alpha(txt):
+    """Whitespace-free text with every bare identifier that is neither an attribute, nor called,
+    nor a module / self prefix replaced by $k in order of first appearance."""
+    import re
+
+    txt = txt.replace(" ", "")
+    out, names, i = [], {}, 0
+    for m in re.finditer(r"[A-Za-z_][A-Za-z_0-9]*|.", txt, re.S):
+        tok = m.group(0)
+        if re.match(r"[A-Za-z_]", tok):
+            prev = txt[m.start() - 1] if m.start() > 0 else ""
+            nxt = txt[m.end()] if m.end() < len(txt) else ""
+            keyword = tok in ("for", "in", "if", "else", "and", "or", "not", "is", "lambda", "return", "raise", "import", "from", "as", "with", "try",
+                              "except", "finally", "while", "def", "class", "pass", "break", "continue", "del", "assert", "yield", "elif")
+            if prev == "." or nxt in (".", "(") or tok in _PROTECT or keyword or (prev in "'\"" ):
+                out.append(tok)
+            elif prev == "=" and nxt == "" and False:
+                out.append(tok)
+            else:
+                if tok not in names:
+                    names[tok] = "$%d" % (len(names) + 1)
+                out.append(names[tok])
+        else:
+            out.append(tok)
+    return "".join(out)
+
+
+def eq_text(node, expected):
+    """Text equality of an AST node (or text) with an expected source fragment, insensitive to
+    whitespace and - as a fallback - to a consistent renaming of plain variables."""
+    got = (node if isinstance(node, str) else text(node)).replace(" ", "")
+    exp = expected.replace(" ", "")
+    if got == exp:
+        return True
+    # keyword-argument names and string contents must agree literally; only variables may differ
+    return _alpha(got) == _alpha(exp)
+
+
+def in_texts(node, options):
+    return any(eq_text(node, o) for o in options)
